@@ -112,6 +112,8 @@ func genModuleWorkspace(r *lib.Rng) map[string]string {
 	if len(funcs) > 0 {
 		mod = append(mod, "function M.last()", "  return M."+funcs[r.Intn(len(funcs))]+"(1)", "end")
 	}
+	// a method declared and called with ':' (through the requiring variable too): always present, no random draw
+	mod = append(mod, "function M:me(k)", "  return self, k", "end", "M:me(2)")
 	mod = append(mod, "return M")
 	files := map[string]string{"mod.lua": strings.Join(mod, "\n") + "\n"}
 	users := 1 + r.Intn(2)
@@ -136,6 +138,7 @@ func genModuleWorkspace(r *lib.Rng) map[string]string {
 		if len(uses) == 0 {
 			uses = append(uses, "x")
 		}
+		uses = append(uses, v+":me(x)")
 		ls = append(ls, "print("+strings.Join(uses, ", ")+")")
 		files[fmt.Sprintf("user%d.lua", u+1)] = strings.Join(ls, "\n") + "\n"
 	}
